@@ -125,8 +125,9 @@ class Types:
             ptr = Ptr(BUILTIN_PTR[g], 0)
             return [ptr], ("ptr", ptr), ("implicit",)
         if g == "BuiltinCosts":
+            # the runner treats BuiltinCosts as a user argument and cannot be handed a pointer
             ptr = Ptr("costs", 0)
-            return [ptr], ("ptr", ptr), ("implicit",)
+            return [ptr], ("ptr", ptr), ("unreplayable",)
         if g in ("Uninitialized", "Coupon"):
             return [], ("struct", []), ("none",)
         if g == "EcPoint":
